@@ -8,6 +8,9 @@ import (
 	"unsafe"
 )
 
+// starvationBound is the longest a runnable task is passed over (in steps).
+const starvationBound = 20000
+
 type schedState struct {
 	runnable []*task
 	settle   []*task
@@ -86,7 +89,17 @@ func (s *Sim) loop() {
 		if n > s.maxRun {
 			s.maxRun = n
 		}
-		k := s.draw(KSched, n, func() int { return s.pick(st.runnable) })
+		k := s.draw(KSched, n, func() int {
+			// bounded unfairness: a task that has been runnable for a very long time is released
+			// (no real scheduler starves a goroutine for ever; zero-time busy loops in the system
+			// under test must not hide the rest of the run)
+			for i, t := range st.runnable {
+				if s.steps-t.runnableSince > starvationBound {
+					return i
+				}
+			}
+			return s.pick(st.runnable)
+		})
 		tk := st.runnable[k]
 		st.runnable = append(st.runnable[:k], st.runnable[k+1:]...)
 		s.hashStep(tk)
@@ -179,6 +192,7 @@ func (s *Sim) pick(run []*task) int {
 func (s *Sim) apply(st *schedState, r req) {
 	switch r.kind {
 	case rPark:
+		r.t.runnableSince = s.steps
 		st.runnable = append(st.runnable, r.t)
 	case rSettle:
 		st.settle = append(st.settle, r.t)
